@@ -16,6 +16,7 @@ import (
 
 	"github.com/apernet/hysteria/core/v2/client"
 	"verif.local/engine/evidence"
+	"verif.local/engine/vnet"
 	"verif.local/engine/vquic"
 	"verif.local/engine/vsched"
 	"verif.local/harness/conform"
@@ -164,6 +165,24 @@ func TestVerifConformRelayFake(t *testing.T) {
 			p.Sample(map[string]any{"history": h.Name, "log": log})
 		}
 		p.Alphabet = names
+		for _, h := range conform.AuthHistories() {
+			p.Evaluations++
+			log := afRun(h)
+			obs["auth/"+h.Name] = log
+			p.Class("auth", h.Name, fmt.Sprint(log))
+		}
+		for _, c := range conform.RateCases() {
+			p.Evaluations++
+			log := rtRun(c)
+			obs["rate/"+c.Name] = log
+			p.Class("rate", c.Name, fmt.Sprint(log))
+		}
+		for _, h := range conform.ReconnHistories() {
+			p.Evaluations++
+			log := rcRun(h)
+			obs["reconnect/"+h.Name] = log
+			p.Class("reconnect", h.Name, fmt.Sprint(log))
+		}
 		path := conform.RelayObsPath()
 		b, _ := json.MarshalIndent(obs, "", " ")
 		if err := os.MkdirAll(filepath.Dir(path), 0o755); err != nil {
@@ -180,4 +199,241 @@ func TestVerifConformRelayFake(t *testing.T) {
 		}
 		p.Note("observation logs of %d histories written to %s", len(obs), path)
 	}})
+}
+
+// ---- shared plumbing of the other end-to-end histories (conform/e2e.go) ------------------------
+
+type fakeBase struct {
+	e   *vsched.Exec
+	r   *rig
+	log []string
+}
+
+func (w *fakeBase) Logf(format string, a ...any) { w.log = append(w.log, fmt.Sprintf(format, a...)) }
+func (w *fakeBase) Settle()                      { w.e.WaitIdle() }
+
+func (w *fakeBase) events(kind string, f func(rigEvent) string) []string {
+	out := []string{}
+	for _, ev := range w.r.Events {
+		if ev.Kind == kind {
+			out = append(out, f(ev))
+		}
+	}
+	return out
+}
+
+func fakeExec(body func(e *vsched.Exec) *fakeBase) []string {
+	var b *fakeBase
+	o := vsched.RunDefault(vsched.Options{}, func(e *vsched.Exec) {
+		b = body(e)
+		if b != nil && b.r != nil {
+			b.r.shutdown(false)
+		}
+	})
+	var log []string
+	if b != nil {
+		log = append(log, b.log...)
+	}
+	if o.Kind != "ok" {
+		log = append(log, fmt.Sprintf("fake-execution:%s:%s", o.Kind, o.Detail))
+	}
+	return log
+}
+
+// ---- auth / masquerade ------------------------------------------------------------------------
+
+type afWorld struct {
+	fakeBase
+	n int
+}
+
+func (w *afWorld) Dial() (*conform.E2EConn, error) {
+	w.n++
+	rc := w.r.dial(fmt.Sprintf("c%d", w.n))
+	if rc.Conn == nil {
+		return nil, errRigDial
+	}
+	return conform.NewFakeE2EConn(rc.Conn), nil
+}
+
+func (w *afWorld) AuthCalls() []string {
+	return w.events("auth", func(ev rigEvent) string { return fmt.Sprintf("cred=%s tx=%d ok=%v", ev.A, ev.N, ev.OK) })
+}
+func (w *afWorld) TCPDials() []string {
+	return w.events("tcp", func(ev rigEvent) string { return ev.A })
+}
+func (w *afWorld) UDPDials() []string {
+	return w.events("udp", func(ev rigEvent) string { return ev.A })
+}
+func (w *afWorld) UDPWrites() []string {
+	return w.events("udpwrite", func(ev rigEvent) string { return ev.A + " " + ev.B })
+}
+func (w *afWorld) Connects() []string {
+	return w.events("connect", func(ev rigEvent) string { return fmt.Sprintf("id=%s tx=%d", ev.A, ev.N) })
+}
+func (w *afWorld) WaitUDPWrites(n int) {
+	w.e.Point("env", func() bool { return len(w.UDPWrites()) >= n }, "wait udp write")
+}
+func (w *afWorld) UDPReply(i int, data []byte, from string) {
+	w.e.Point("env", func() bool { return len(w.r.UDPSocks) > i }, "wait udp socket")
+	w.r.UDPSocks[i].Inject(data, from)
+}
+
+func afRun(h conform.AuthHistory) []string {
+	return fakeExec(func(e *vsched.Exec) *fakeBase {
+		w := &afWorld{}
+		w.e = e
+		w.r = newRig(e, rigOpts{Masq: conform.MasqHandler()})
+		if w.r.srv == nil {
+			w.Logf("ABORT NewServer")
+			return &w.fakeBase
+		}
+		conform.RunAuthHistory(w, h)
+		return &w.fakeBase
+	})
+}
+
+// ---- rate negotiation -------------------------------------------------------------------------
+
+type rtWorld struct {
+	fakeBase
+	c     conform.RateCase
+	nsock int
+	cl    client.Client
+}
+
+func (w *rtWorld) New(net.Addr) (net.PacketConn, error) {
+	w.nsock++
+	return newRigSock(fmt.Sprintf("client-sock-%d", w.nsock), 50000+w.nsock-1), nil
+}
+
+func (w *rtWorld) Handshake() (bool, uint64, error) {
+	cl, info, err := client.NewClient(&client.Config{ConnFactory: w, ServerAddr: w.r.pc.LocalAddr(), Auth: "good",
+		BandwidthConfig: client.BandwidthConfig{MaxTx: w.c.ClientTx, MaxRx: w.c.ClientRx}})
+	if err != nil {
+		return false, 0, err
+	}
+	w.cl = cl
+	return info.UDPEnabled, info.Tx, nil
+}
+
+func (w *rtWorld) ServerSide() (connectTx, authTx uint64) {
+	find := func(kind string) (uint64, bool) {
+		for _, ev := range w.r.Events {
+			if ev.Kind == kind {
+				return ev.N, true
+			}
+		}
+		return 0, false
+	}
+	w.e.Point("env", func() bool { _, ok := find("connect"); return ok }, "wait Connect")
+	connectTx, _ = find("connect")
+	authTx, _ = find("auth")
+	return
+}
+
+func rtRun(c conform.RateCase) []string {
+	return fakeExec(func(e *vsched.Exec) *fakeBase {
+		w := &rtWorld{c: c}
+		w.e = e
+		w.r = newRig(e, rigOpts{Mutate: func(cfg *Config) {
+			cfg.BandwidthConfig = BandwidthConfig{MaxTx: c.ServerTx, MaxRx: c.ServerRx}
+			cfg.IgnoreClientBandwidth = c.Ignore
+		}})
+		if w.r.srv == nil {
+			w.Logf("ABORT NewServer")
+			return &w.fakeBase
+		}
+		conform.RunRateCase(w, c)
+		if w.cl != nil {
+			_ = w.cl.Close()
+		}
+		return &w.fakeBase
+	})
+}
+
+// ---- reconnecting client ----------------------------------------------------------------------
+
+type rcWorld struct {
+	fakeBase
+	h         conform.ReconnHistory
+	socks     []*vnet.PacketConn
+	connected []int
+	rc        client.Client
+	armed     bool
+}
+
+func (w *rcWorld) New(net.Addr) (net.PacketConn, error) {
+	pc := newRigSock(fmt.Sprintf("client-sock-%d", len(w.socks)), 50000+len(w.socks))
+	w.socks = append(w.socks, pc)
+	return pc, nil
+}
+
+func (w *rcWorld) NewClient(lazy bool) error {
+	rc, err := client.NewReconnectableClient(
+		func() (*client.Config, error) {
+			return &client.Config{ConnFactory: w, ServerAddr: w.r.pc.LocalAddr(), Auth: "good"}, nil
+		},
+		func(c client.Client, info *client.HandshakeInfo, count int) {
+			w.connected = append(w.connected, count)
+			if w.h.MaxStreams > 0 {
+				nt := vquic.GetNet(w.e)
+				nt.Conns[len(nt.Conns)-1].MaxStreams = w.h.MaxStreams
+			}
+		}, lazy)
+	if err != nil {
+		return err
+	}
+	w.rc = rc
+	return nil
+}
+
+func (w *rcWorld) TCP(addr string) (net.Conn, error) { return w.rc.TCP(addr) }
+func (w *rcWorld) Close() error                      { return w.rc.Close() }
+func (w *rcWorld) Factory() (int, []bool) {
+	closed := []bool{}
+	for _, s := range w.socks {
+		closed = append(closed, s.Closes > 0)
+	}
+	return len(w.socks), closed
+}
+func (w *rcWorld) Connected() []int { return append([]int{}, w.connected...) }
+func (w *rcWorld) ArmVeto()         { w.armed = true }
+
+func (w *rcWorld) Target(i int) net.Conn {
+	addrs := func() []string {
+		var out []string
+		for _, ev := range w.r.Events {
+			if ev.Kind == "tcp" && ev.OK {
+				out = append(out, ev.A)
+			}
+		}
+		return out
+	}
+	w.e.Point("env", func() bool { return len(addrs()) > i }, "wait target")
+	return w.r.Targets[addrs()[i]]
+}
+
+func rcRun(h conform.ReconnHistory) []string {
+	return fakeExec(func(e *vsched.Exec) *fakeBase {
+		w := &rcWorld{h: h}
+		w.e = e
+		w.r = newRig(e, rigOpts{Traffic: true})
+		if w.r.srv == nil {
+			w.Logf("ABORT NewServer")
+			return &w.fakeBase
+		}
+		w.r.TrafficVeto = func(n int, id string, tx, rx uint64) bool {
+			if w.armed {
+				w.armed = false
+				return true
+			}
+			return false
+		}
+		h.Body(w)
+		if w.rc != nil {
+			_ = w.rc.Close()
+		}
+		return &w.fakeBase
+	})
 }
